@@ -336,6 +336,7 @@ class Trace:
         self.refreads = {}      # elem -> set of (owner sid | 'model', name, how) of one execution
         self.cached = {}        # elem -> cached flag
         self.failed = {}        # elem -> (calls, refreads) of an execution that raised
+        self.values = {}        # elem -> value of a completed execution
         self.executed = []      # elems whose formula ran, in completion order
         self.entered = []       # elems in entry order
         self.created = []       # item spaces created (sid)
@@ -344,7 +345,8 @@ class Trace:
 
 class Evaluator:
 
-    def __init__(self, model, budget=200000, trace=None):
+    def __init__(self, model, budget=200000, trace=None, held=None):
+        self.held = held        # optional {elem: value}: values served from memory (like a memoising evaluator)
         self.m = model
         self.budget = budget
         self.trace = trace if trace is not None else Trace()
@@ -385,7 +387,10 @@ class Evaluator:
             inp = self.m.inputs.get((ctx.sid, name))
             if inp is not None and key in inp:
                 return inp[key]
+            if self.held is not None and elem in self.held:
+                return self.held[elem]
         rec = self._push(elem)
+        self.trace.cached[elem] = cdef.cached
         try:
             env = {p: v for (p, _), v in zip(cdef.params, key)}
             self.trace.entered.append(elem)
@@ -397,6 +402,7 @@ class Evaluator:
             self.trace.calls[elem] = rec[1]
             self.trace.refreads[elem] = rec[2]
             self.trace.cached[elem] = cdef.cached
+            self.trace.values[elem] = value
             return value
         except Exception:
             self.trace.failed.setdefault(elem, (rec[1], rec[2]))
@@ -435,6 +441,7 @@ class Evaluator:
         elem = (pctx.sid, None, key)
         self._note_call(elem)
         rec = self._push(elem)
+        self.trace.cached[elem] = True
         try:
             argmap = {p: v for (p, _), v in zip(f["params"], key)}
             ret = f.get("ret")
@@ -614,9 +621,22 @@ class Evaluator:
             return self.ev(e[2], ctx, env2)
         if k == "fail":
             kind = self.m.armed.get(e[1])
-            if kind:
+            if kind and kind != "None":
                 raise FAULT_KINDS[kind]("armed " + e[1])
             return 0
+        if k == "failx":
+            tag = e[1] + (str(env[e[2]]) if e[2] else "")
+            kind = self.m.armed.get(tag)
+            if kind and kind != "None":
+                raise FAULT_KINDS[kind]("armed " + tag)
+            return 0
+        if k == "failnone":
+            kind = self.m.armed.get(e[1])
+            if kind == "None":
+                return None
+            if kind:
+                raise FAULT_KINDS[kind]("armed " + e[1])
+            return self.ev(e[2], ctx, env)
         raise ValueError("bad expr %r" % (e,))
 
     def getattr(self, o, name):
@@ -650,13 +670,13 @@ _MISSING = object()
 # ----------------------------------------------------------------------------
 # convenience
 
-def evaluate(model, sid, name, args=(), kwargs=None, budget=200000):
+def evaluate(model, sid, name, args=(), kwargs=None, budget=200000, held=None):
     """Evaluate cells ``name`` of the space identified by ``sid``.
 
     Returns ("ok", value, trace) or ("err", exception type name, trace).
     Raises Budget if the evaluation is too large.
     """
-    ev = Evaluator(model, budget=budget)
+    ev = Evaluator(model, budget=budget, held=held)
     try:
         ctx = ev.ctx_of(sid)
         v = ev.call_cells(ctx, name, args, kwargs)
